@@ -215,6 +215,15 @@ class Explorer:
             return None if r is None else not r
         if t in st.nonempty:
             return True
+        if tag == "call" and t[1] in ("enumerate", "list", "tuple", "sorted", "reversed", "iter") and len(t[2]) >= 1 \
+                and t is not t[2][0]:
+            inner = self.truth_of(t[2][0], st)          # these wrappers are empty exactly when what they wrap is
+            if inner is not None:
+                return inner
+        if tag == "call" and t[1] == "range" and len(t[2]) == 1 and t[2][0][0] == "call" and t[2][0][1] == "len" and len(t[2][0][2]) == 1:
+            inner = self.truth_of(t[2][0][2][0], st)     # range(len(xs))
+            if inner is not None:
+                return inner
         if st.nonempty and tag in ("call", "comp", "concat", "slice") and nonempty_term(t, st.nonempty) is True:
             return True
         if tag == "not" and t[1] in st.nonempty:
@@ -286,6 +295,26 @@ class Explorer:
                 except AnalysisError:
                     pass
         return [(st, None)]
+
+    def _bound_once(self, name: str, binding) -> bool:
+        for n in ast.walk(self.fn.node):
+            if n is binding:
+                continue
+            if isinstance(n, ast.Name) and isinstance(n.ctx, ast.Store) and n.id == name and \
+                    not (isinstance(binding, ast.Assign) and n is binding.targets[0]):
+                return False
+            if isinstance(n, (ast.FunctionDef, ast.ClassDef)) and n.name == name:
+                return False
+        return True
+
+    def _captures_stable(self, lam: ast.Lambda, binding) -> bool:
+        params = {a.arg for a in lam.args.args}
+        free = {n.id for n in ast.walk(lam.body) if isinstance(n, ast.Name)} - params
+        for n in ast.walk(self.fn.node):
+            if isinstance(n, ast.Name) and isinstance(n.ctx, ast.Store) and n.id in free and \
+                    (n.lineno, n.col_offset) > (binding.lineno, binding.col_offset):
+                return False
+        return True
 
     def _nested_def_as_lambda(self, s):
         """`def f(x): return <expr>` nested in a function is the lambda it spells out - provided nothing it captures is
@@ -462,6 +491,13 @@ class Explorer:
                 out.append((ns, None))
             return out
         value = self.normalizer(st).norm(s.value)
+        if len(s.targets) == 1 and isinstance(s.targets[0], ast.Name) and value[0] == "lam" \
+                and isinstance(s.value, (ast.Lambda, ast.Call)):
+            # f = lambda x: E   /   f = functools.partial(g, a)  : a later call f(y) is read through the body
+            lam_ast = self.normalizer(st)._as_lambda_ast(s.value) if isinstance(s.value, ast.Call) else s.value
+            name = s.targets[0].id
+            if lam_ast is not None and self._bound_once(name, s) and self._captures_stable(lam_ast, s):
+                self.__dict__.setdefault("_local_defs", {})[name] = (lam_ast, value)
         if len(s.targets) == 1 and isinstance(s.targets[0], (ast.Tuple, ast.List)) and value[0] == "tuple" \
                 and len(value[1]) == len(s.targets[0].elts) and not any(isinstance(e, ast.Starred) for e in s.targets[0].elts):
             # parallel assignment: evaluate all right-hand sides first
